@@ -66,7 +66,7 @@ CHECKS = {
             "over every combination of hash shape, path, id, existence, ignore reason and stamp values, plus legacy rows.",
             NOTE_E1, "5/C08"),
     "C09": ("apix", TECH_E2,
-            "Every call sequence up to depth 4 (5 thorough) over the storage API with colliding tags and ids and close/reopen "
+            "Every call sequence up to depth 3 (4 thorough) over the storage API with three colliding tags (another tag, a case variant, a common prefix), colliding ids and close/reopen "
             "is run on SqliteStorage (file and :memory:) and the upstream MockStorage; after each call the full contents are "
             "compared with a dict. Concurrent use: 2-3 real threads with 1-2 operations each on colliding ids under a controlled "
             "scheduler (backend mutex replaced by a cooperative lock), every schedule within the preemption bound, brute-force "
